@@ -23,8 +23,8 @@ partial def loop (h : IO.FS.Stream) (w : World) (debug : Bool) (dead : Bool) : I
     | some op =>
       let (w', lines) := step w op
       for l in lines do IO.println ("> " ++ l)
-      -- after a UB / assertion marker the model state is meaningless: stop this history
-      let dead' := lines.any fun l => l.startsWith "ub " || l.startsWith "assert "
+      -- after a UB marker the model state is meaningless: stop this history (a failed debug assertion unwinds like a panic)
+      let dead' := lines.any fun l => l.startsWith "ub "
       loop h w' debug dead'
 
 def main (args : List String) : IO Unit := do
